@@ -36,7 +36,16 @@ META = {
         "program-counter machine on the emitted assembler text) against the Lean reference semantics of the source; "
         "callee-saved registers and sp compared at return (values pinned to s-registers to exercise prologue/epilogue), "
         "emitted prologue/epilogue = Lean prologue/epilogue, real cmpi lowering = Lean table; (C) py_operation of the "
-        "rv32/rv64 immediate-shift ops vs bit formulas."
+        "rv32/rv64 immediate-shift ops vs bit formulas. riscv_cf: constEvaluate_sound (const_evaluate of beq/bne/blt/bge/bltu/bgeu "
+        "= what the branch instruction does, incl. equal operands) and elideConstantBranch_sound (the folded branch gives the same "
+        "machine step); leg A runs every conditional branch op × boundary/equal constant pairs (li / mv / zero shapes, allocated "
+        "and not) and constant-bound block-structured loops through the real canonicalize and executes before/after on a "
+        "basic-block executor; leg B additionally takes the second way out of riscv_scf from the allocated module "
+        "(convert-riscv-scf-to-riscv-cf, canonicalize, parallel-mov lowering, prologue/epilogue → assembler) incl. zero-trip and "
+        "lb == ub constant loops, and nested loops whose inner result is yielded by the outer loop. A failure of the allocated "
+        "stage is attributed to the listed allocator finding only if the *source* loop has the listed shape and an independent "
+        "interference analysis (value-token tracking over registers, loop bodies re-run to a fixpoint) finds a live value "
+        "overwritten in a loop-carried register."
     ),
     "technique": "Lean 4 proofs of rewrite rules over an RV32 BitVec machine + differential snippets + stage-wise translation validation on an independent machine model",
     "level_note": (
@@ -58,7 +67,12 @@ META = {
         "Non-trivial = the rewrite changed the instruction list. leg B: generated programs (1–4 i32 args, ≤6 statements, "
         "scf.for depth ≤1, all 13 integer ops, 10 cmpi predicates, constants incl. boundary immediates, optional helper "
         "call, optional s-register pinning) × 5 input vectors; non-trivial = reached the emitted assembler (all stages) "
-        "on an input with defined source semantics. Distinct = distinct (snippet | program, input)."
+        "on an input with defined source semantics. riscv_cf: 6 branch ops × 28 constant pairs (equal, adjacent, sign/unsigned "
+        "boundary) + constants through mv / zero / allocated registers + half-constant and register-only branches + 15 constant "
+        "loops (bge/blt, bgeu/bltu, beq/bne; zero-trip, lb == ub, one trip, INT_MAX bound) + random pairs; non-trivial = a "
+        "branch was folded. Pipeline programs include 6 fixed + random nested loops (inner result yielded by the outer loop, outer "
+        "carried value read in the inner body, ≥ 2 iterations, also zero-trip) and 7 constant-bound loops with equal/adjacent "
+        "bounds, each also through the cf path. Distinct = distinct (snippet | program, input)."
     ),
     "trusted_base": [
         "independent Python RV32 machine harness/props/c22_rv.py (cross-checked against the Lean machine every run)",
@@ -245,6 +259,105 @@ def eval_snippet(ctx: core.Ctx, pats: dict[str, Any], pattern: str, mode: str, s
     return None
 
 
+CF_SITE = "xdsl.transforms.canonicalization_patterns.riscv_cf.ElideConstantBranches.match_and_rewrite"
+
+
+def run_cf_func(m: Any, nm: sn.Namer, argr: list[str], regs: dict[str, int]) -> tuple[Any, ...]:
+    mach = rv.Machine([], regs)
+    ex = pp.IRExec(m, mach, fuel=20000)
+    ex.nm = nm
+    try:
+        ex.call("f")
+    except rv.Trap as e:
+        return ("trap", str(e).split(":")[0])
+    return ("ok", ex.ret_vals)
+
+
+def eval_cf_case(ctx: core.Ctx, case: dict[str, Any], vectors: int, report: bool = True) -> str | None:
+    """riscv_cf function through the real `canonicalize`; executed before and after on the RV32
+    machine (block-structured executor): same returned values, i.e. every branch goes the same way"""
+    from xdsl.dialects import riscv_cf
+
+    try:
+        m = sn.parse(case["mlir"])
+    except Exception as e:  # noqa: BLE001
+        ctx.count("legA.cf.generator_rejected." + core.exc_name(e))
+        return None
+    f = sn.the_func(m)
+    nm = sn.Namer()
+    argr = [nm.reg(a) for a in f.body.blocks.first.args]
+    inputs = sn.input_vectors(ctx.rng, argr, False, vectors)
+    before = [run_cf_func(m, nm, argr, r) for r in inputs]
+    nbr = sum(isinstance(o, riscv_cf.ConditionalBranchOperation) for o in m.walk())
+    ctx.ev()
+    try:
+        sn.canonicalize(m)
+        m.verify()
+    except Exception as e:  # noqa: BLE001
+        if report:
+            ctx.fail(pp.STAGE_SITE["C4-cfcanon"], SIG_RAISE, case, f"canonicalize raised {core.exc_name(e)} on a verified riscv_cf function",
+                     "raise " + core.exc_name(e) + ": " + str(e).split("\n")[0][:200], "no exception")
+        return SIG_RAISE
+    nbr2 = sum(isinstance(o, riscv_cf.ConditionalBranchOperation) for o in m.walk())
+    folded = nbr2 < nbr
+    ctx.count(f"legA.cf.{case['kind']}.{case['op']}." + ("folded" if folded else "kept"))
+    if folded:
+        ctx.nt(("A-cf", case["mlir"]))
+    for regs, o0 in zip(inputs, before):
+        if o0[0] == "trap":
+            ctx.count("legA.cf.input_traps_before")
+            continue
+        o1 = run_cf_func(m, nm, argr, regs)
+        if o1 != o0:
+            if report:
+                ctx.fail(CF_SITE if folded else pp.STAGE_SITE["C4-cfcanon"], SIG_DIFF, dict(case, inputs=regs),
+                         "executing the riscv_cf function on the RV32 machine gives different results before and after canonicalize "
+                         "(a constant-folded branch goes the other way)", {"after": str(m)[:2500], "got": o1}, {"want": o0})
+            return SIG_DIFF
+    return None
+
+
+def run_cf_snippets(ctx: core.Ctx) -> None:
+    cases = sn.cf_cases(ctx.rng, 40 if ctx.tier == "quick" else 3000)
+    lean_lines: list[str] = []
+    lean_expect: list[tuple[str, Any, str]] = []
+    for case in cases:
+        if ctx.time_left() < 25:
+            ctx.count("legA.cf.skipped_for_time")
+            continue
+        ctx.count("legA.cf.cases")
+        eval_cf_case(ctx, case, 4 if ctx.tier == "quick" else 8)
+    # const_evaluate of every branch class vs the Lean model of it (and, there, vs the machine's `taken`)
+    from xdsl.dialects import riscv_cf
+
+    classes = {"beq": riscv_cf.BeqOp, "bne": riscv_cf.BneOp, "blt": riscv_cf.BltOp, "bge": riscv_cf.BgeOp,
+               "bltu": riscv_cf.BltuOp, "bgeu": riscv_cf.BgeuOp}
+    pairs = list(sn.BR_PAIRS) + [(ctx.rng.randint(-2**31, 2**31 - 1), ctx.rng.randint(-2**31, 2**31 - 1)) for _ in range(20)]
+    for opn, cls in classes.items():
+        for a, b in pairs:
+            na, nb = rv.s32(a), rv.s32(b)  # get_constant_value hands over normalised i32 payloads
+            try:
+                got = "taken" if cls.const_evaluate(None, na, nb, 32) else "fall"  # type: ignore[arg-type]
+            except Exception as e:  # noqa: BLE001
+                got = "raise " + core.exc_name(e)
+            want = "taken" if rv.branch_taken(opn, na & rv.M32, nb & rv.M32) else "fall"
+            ctx.ev()
+            if got != want:
+                ctx.fail(f"xdsl.dialects.riscv_cf.{cls.__name__}.const_evaluate", "constant evaluation of a branch differs from the instruction",
+                         {"leg": "A", "kind": "const_evaluate", "op": opn, "rs1": na, "rs2": nb},
+                         f"const_evaluate({na}, {nb}, 32) of {opn}", got, want)
+            lean_lines.append(f"cbr {opn} {na} {nb}")
+            lean_expect.append(("cbr", {"op": opn, "rs1": na, "rs2": nb}, got))
+    outs = ctx.model("riscv", lean_lines) if lean_lines else []
+    for (kind, case, want), got in zip(lean_expect, outs):
+        ctx.count("lean.cbr")
+        if got == "bad-op":
+            ctx.count("lean.cbr.unsupported")
+            continue
+        if got != want and not want.startswith("raise"):
+            ctx.mismatch("correspondence:C22/riscv-cbr", case, want, got, "real const_evaluate vs Lean constEvaluate")
+
+
 def attribute(ctx: core.Ctx, pats: dict[str, Any], s: dict[str, Any], sig: str, vectors: int) -> str | None:
     """which single pattern reproduces a canonicalize-level failure"""
     for p in sn.INT_PATTERNS:
@@ -325,57 +438,51 @@ def run_snippets(ctx: core.Ctx) -> None:
 # leg B
 # ================================================================================================
 
-def unsafe_loop_sharing(m: Any) -> bool:
-    """S1 IR: does some riscv_scf.for yield a value whose register may not be tied to the block
-    argument's (defined outside the body / another block argument / defined while the block
-    argument is still needed / yielded twice)?  Those loops hit the listed allocator finding."""
-    from xdsl.dialects import riscv_scf
-    from xdsl.ir import OpResult
-
-    for op in m.walk():
-        if not isinstance(op, riscv_scf.ForOp):
-            continue
-        body = op.body.block
-        ops = list(body.ops)
-        y = ops[-1]
-        pos = {id(o): i for i, o in enumerate(ops)}
-        ys = list(y.operands)
-        for b, yv in zip(body.args[1:], ys):
-            if yv is b:
-                continue
-            if ys.count(yv) > 1:
-                return True
-            if not (isinstance(yv, OpResult) and id(yv.op) in pos):
-                return True
-            d = pos[id(yv.op)]
-            for u in b.uses:
-                o = u.operation
-                while o is not None and id(o) not in pos:
-                    o = o.parent_op()
-                if o is None or pos[id(o)] > d:
-                    return True
-    return False
-
-
 def compile_and_run(p: dict[str, Any], vecs: list[list[int]], regsets: list[dict[str, int]], pin_seed: int | None,
                     ctx: core.Ctx | None) -> dict[str, Any]:
     """all stages; observations per stage per input"""
-    out: dict[str, Any] = {"stages": [], "nocompile": None, "unsafe_loops": False, "asm": None, "prog": None}
+    out: dict[str, Any] = {"stages": [], "nocompile": None, "nocompile_cf": None, "unsafe_loops": False, "interference": [],
+                           "asm": None, "prog": None}
     m = proggen.parse_module(p["text"])
+    out["unsafe_loops"] = pp.unsafe_source_loops(m)  # on the source, before any pass under test
     nret = len(p["ret_types"])
-    for sname, passes in pp.STAGES:
+    m_cf = None
+    stage_list = list(pp.STAGES)
+    k = 0
+    while k < len(stage_list):
+        sname, passes = stage_list[k]
+        k += 1
+        if sname == "C3-cf":
+            if m_cf is None:
+                break
+            m = m_cf
         if sname == "S2-allocated":
-            out["unsafe_loops"] = unsafe_loop_sharing(m)
             if pin_seed is not None:
                 out["pinned"] = pp.pin_s_registers(m, random.Random(pin_seed), 0.4)
         err = pp.apply_passes(m, passes)
         if err:
+            if sname.startswith("C"):
+                out["nocompile_cf"] = (sname,) + err
+                break
             out["nocompile"] = (sname,) + err
-            break
+            if m_cf is None:
+                break
+            k = len(pp.STAGES)  # the labels path stops here; the cf path still runs from S2
+            continue
+        if sname == "S2-allocated":
+            try:
+                out["interference"] = pp.interference(m)
+            except Exception as e:  # noqa: BLE001
+                out["interference"] = [{"analysis": "failed: " + core.exc_name(e)}]
+            if "scf.for" in p["text"]:
+                m_cf = m.clone()
+                stage_list = list(pp.STAGES) + list(pp.CF_STAGES)
         if sname in pp.ASM_STAGES:
             asm = pp.asm_text(m)
             prog = rv.parse_asm(asm)
-            out["asm"], out["prog"] = asm, prog
+            out.setdefault("asm_by_stage", {})[sname] = (asm, prog)
+            if sname == pp.FINAL:
+                out["asm"], out["prog"] = asm, prog
             bad = [(rv.fmt(i), rv.encodable(i)) for i in prog if rv.encodable(i)]
             if bad:
                 out["stages"].append((sname, [("unencodable", bad)] * len(vecs), asm))
@@ -397,13 +504,13 @@ def judge(p: dict[str, Any], regs: dict[str, int], want: list[int], stage_obs: l
             return (sname, SIG_ENC, "the emitted assembler contains an instruction that does not assemble", ob[1])
         if ob[0] != "ok":
             return (sname, "execution traps", f"executing the stage output traps: {ob[1]}", ob[1])
-        if sname in ("S2-allocated", "S3-pmov", "S4-canon") and len(ob) > 3 and ob[3]:
+        if sname in ("S2-allocated", "S3-pmov", "S4-canon", "C3-cf", "C4-cfcanon") and len(ob) > 3 and ob[3]:
             return (sname, SIG_UNALLOC, "registers were allocated, yet the stage output uses values without a register", ob[3])
         got = [(x & 1) if t == "i1" else x for x, t in zip(ob[1], p["ret_types"])]
         if got != want:
             return (sname, "result differs from the source semantics",
                     f"a0.. after executing the {sname} output differ from the source results", {"got": got, "want": want})
-        if sname == pp.FINAL:
+        if sname in pp.FINALS:
             cs = {r: (regs[r], ob[2][r]) for r in rv.CALLEE_SAVED if ob[2][r] != regs[r]}
             if cs:
                 return (sname, "callee-saved register or sp not restored",
@@ -418,6 +525,7 @@ def run_pipeline(ctx: core.Ctx) -> None:
     progs = [pp.cmpi_program(pr, sw) for pr in proggen.CMPI for sw in (False, True)]
     progs += pp.directed_programs()
     ndirected = len(progs)
+    progs += [pp.nested_program(rng) for _ in range(8 if ctx.tier == "quick" else 1500)]
     progs += [g.program() for _ in range(nprog)]
     sem_lines: list[str] = []
     expect: list[Any] = []
@@ -442,19 +550,27 @@ def run_pipeline(ctx: core.Ctx) -> None:
         res = compile_and_run(p, vecs, regsets, pin_seed, ctx)
         if res["nocompile"]:
             ctx.count("legB.does_not_compile." + ".".join(res["nocompile"][:3]))
-        elif res["stages"] and res["stages"][-1][0] == pp.FINAL:
+        elif any(sn_ == pp.FINAL for sn_, _, _ in res["stages"]):
             ctx.count("legB.compiled")
             if res.get("pinned"):
                 ctx.count("legB.compiled_with_s_registers")
+        if res["nocompile_cf"]:
+            ctx.count("legB.cf_path.does_not_compile." + ".".join(res["nocompile_cf"][:3]))
+        elif any(sn_ == "C5-cfasm" for sn_, _, _ in res["stages"]):
+            ctx.count("legB.cf_path.compiled")
         sem_lines.append("prog " + sexp)
         expect.append(None)
         for i, vec in enumerate(vecs):
             sem_lines.append("run 200000 main " + " ".join(miniir.arg_text(t, v) for t, v in zip(p["arg_types"], vec)))
-            expect.append((p, vec, regsets[i], [(s, o[i], txt) for s, o, txt in res["stages"]], pin_seed, res["unsafe_loops"]))
+            expect.append((p, vec, regsets[i], [(s, o[i], txt) for s, o, txt in res["stages"]], pin_seed,
+                           (res["unsafe_loops"], res["interference"])))
             ctx.ev()
         # Lean machine vs Python machine on the emitted assembler
-        if res["prog"] is not None and res["stages"] and res["stages"][-1][0] == pp.FINAL and len(lean_lines) < 4000:
-            prog = res["prog"]
+        for fin in pp.FINALS:
+            st_obs = next((o for sn_, o, _ in res["stages"] if sn_ == fin), None)
+            if st_obs is None or len(lean_lines) >= 4000:
+                continue
+            asm_f, prog = res["asm_by_stage"][fin]
             try:
                 ptxt = rv.lean_prog(prog)
                 entry = next(i for i, (mm, a) in enumerate(prog) if mm == "label" and a[0] == "main")
@@ -462,14 +578,14 @@ def run_pipeline(ctx: core.Ctx) -> None:
                 ptxt = None
             if ptxt is not None:
                 for i in range(min(2, len(vecs))):
-                    ob = res["stages"][-1][1][i]
+                    ob = st_obs[i]
                     obs = [f"a{k}" for k in range(len(p["ret_types"]))] + rv.CALLEE_SAVED
                     lean_lines.append(f"run 200000 {entry} 0 | {rv.lean_regs(regsets[i])} | {ptxt} | " + " ".join(str(rv.regnum(r)) for r in obs))
                     if ob[0] == "ok":
                         want = "ok " + " ".join(str(x) for x in ob[1] + [ob[2][r] for r in rv.CALLEE_SAVED])
                     else:
                         want = "trap"
-                    lean_expect.append(("run", {"asm": res["asm"], "regs": regsets[i]}, want))
+                    lean_expect.append(("run", {"asm": asm_f, "regs": regsets[i]}, want))
         # prologue / epilogue text vs Lean `prologue`/`epilogue` (the lists frame_sound is about)
         if res["prog"] is not None and res.get("pinned") and len(lean_lines) < 4000:
             fr = frame_of(res["prog"], "main")
@@ -492,22 +608,28 @@ def run_pipeline(ctx: core.Ctx) -> None:
             if o != "ok":
                 raise core.InfraError("MiniIR serialisation rejected by the Lean parser")
             continue
-        p, vec, regs, stage_obs, pin_seed, unsafe = e
+        p, vec, regs, stage_obs, pin_seed, (unsafe, interf) = e
         want = pp.want_from_sem(o, p["ret_types"])
         if want is None:
             ctx.count("legB.source_outcome." + o.split(" ")[0])
             continue
         ctx.count("legB.source_outcome.ok")
         bad = judge(p, regs, want, stage_obs)
-        if stage_obs and stage_obs[-1][0] == pp.FINAL:
+        if any(sn_ == pp.FINAL for sn_, _, _ in stage_obs):
             ctx.disagreements_checked += 1
             ctx.nt(("B", p["text"], tuple(vec)))
         if bad is None:
             continue
         sname, sig, desc, obs = bad
         site = pp.STAGE_SITE[sname]
-        if sname == "S2-allocated" and unsafe and sig == "result differs from the source semantics":
+        # the listed allocator limitation: the *source* loop yields a value the allocator cannot tie to the
+        # block argument AND the independent interference analysis of the allocated module finds a value
+        # overwritten in a loop-carried register; anything else at this stage is new
+        confirmed = [x for x in interf if x.get("loop_carried_register") == "True"]
+        if sname == "S2-allocated" and unsafe and confirmed and sig == "result differs from the source semantics":
             site, sig = LOOP_SITE, LOOP_SIG
+        elif sname == "S2-allocated" and interf:
+            desc += "; interference analysis of the allocated module: " + json.dumps(interf[:4])
         case = {"leg": "B", "program": p["text"], "arg_types": p["arg_types"], "ret_types": p["ret_types"], "args": vec,
                 "entry_regs": regs, "pin_seed": pin_seed}
         if reported < 6 and site != LOOP_SITE:
@@ -675,6 +797,7 @@ def run(ctx: core.Ctx) -> None:
     run_shift_kernels(ctx)
     t = ctx.budget_s
     run_snippets(ctx)
+    run_cf_snippets(ctx)
     run_pipeline(ctx)
     ctx.extra["legs"] = {"A": "canonicalization snippets", "B": "pipeline programs, stage-wise", "C": "shift-fold kernels rv32/rv64"}
     ctx.extra["budget_s"] = t
@@ -683,6 +806,24 @@ def run(ctx: core.Ctx) -> None:
 def replay(ctx: core.Ctx, body: dict) -> int:
     case = body.get("case") or {}
     leg = case.get("leg")
+    if leg == "A" and case.get("kind") in ("cf-branch", "cf-loop"):
+        print(case["mlir"])
+        sig = eval_cf_case(ctx, case, 24, report=True)
+        for f in ctx.failures:
+            print("implementation:", json.dumps(f.impl_obs, default=str)[:2500])
+            print("expected      :", json.dumps(f.model_obs, default=str)[:600])
+        print("property FAILS on this case: " + sig if sig else "property holds on this case")
+        return 1 if sig else 0
+    if leg == "A" and case.get("kind") == "const_evaluate":
+        from xdsl.dialects import riscv_cf
+
+        cls = {"beq": riscv_cf.BeqOp, "bne": riscv_cf.BneOp, "blt": riscv_cf.BltOp, "bge": riscv_cf.BgeOp,
+               "bltu": riscv_cf.BltuOp, "bgeu": riscv_cf.BgeuOp}[case["op"]]
+        got = cls.const_evaluate(None, case["rs1"], case["rs2"], 32)  # type: ignore[arg-type]
+        want = rv.branch_taken(case["op"], case["rs1"] & rv.M32, case["rs2"] & rv.M32)
+        print(f"{case['op']} {case['rs1']}, {case['rs2']}: const_evaluate = {got}, the instruction branches = {want}")
+        print("property holds on this case" if got == want else "property FAILS on this case")
+        return 0 if got == want else 1
     if leg == "A":
         pats = sn.pattern_instances()
         s, pattern, mode = case["snippet"], case["pattern"], case["mode"]
